@@ -11,7 +11,7 @@ REQUIRED = [P + n for n in """drop_is_identity
 act_inv run_inv async_writer_bytes async_writer_clean_end completed_write_reports_length
 sync_idle_noop write_zero_error write_zero_then_sync_resumes transient_error_keeps_offset
 encode_failure_or_too_long_writes_nothing offset_le_buffer
-undisciplined_stale_state""".split()]
+undisciplined_stale_state""".split()] + ["Minicbor.Frame.syncLoop_spec"]
 PACKAGES = ["hio"]
 RULE = ("awrite scenarios on the real AsyncWriter over a scripted futures_io::AsyncWrite, futures polled by hand with a no-op waker: value "
         "sequences with <=10 frame bytes x ALL compositions into accepted sizes x every placement of <=2 Pendings x every decision at each "
